@@ -89,7 +89,7 @@ def run(ctx: core.Ctx):
     # random doubles and the branch point
     rng = random.Random(ctx.seed)
     n = 3000 if ctx.quick else 30000
-    pts = [0.5, math.nextafter(0.5, 0), math.nextafter(0.5, 1), 0.0, 1.0, math.nextafter(0, 1), math.nextafter(1, 0), 0.25, 0.75]
+    pts = [0.5, math.nextafter(0.5, 0), math.nextafter(0.5, 1), 0.0, -0.0, 1.0, math.nextafter(0, 1), 1e-300, 2.0 ** -53, 1e-160, math.nextafter(1, 0), 0.25, 0.75]
     worst = 0.0
     for i in range(n):
         x = pts[i] if i < len(pts) else rng.random()
